@@ -123,6 +123,7 @@ def split_lengths(tree, rooted, key=None, include_trivial=True, include_root_edg
     out = {}
     all_present = True
     lo = min(allk) if allk else None
+    root_chain = 0
     for nd in nodes:
         if nd._parent_node is None:
             continue
@@ -131,6 +132,10 @@ def split_lengths(tree, rooted, key=None, include_trivial=True, include_root_edg
         if ln is None:
             all_present = False
             ln = 0
+        if include_root_edge and c == allk:
+            # a chain of unifurcations at the seed: the library folds these edges into the seed edge
+            root_chain += ln
+            continue
         if rooted:
             s = c
         else:
@@ -144,7 +149,7 @@ def split_lengths(tree, rooted, key=None, include_trivial=True, include_root_edg
         out.setdefault(allk, 0)
     if include_root_edge:
         # the library's encoding holds the seed edge too (its bipartition spans all leaves); a missing length counts 0
-        out[ROOT_EDGE] = nodes[0]._edge.length or 0
+        out[ROOT_EDGE] = (nodes[0]._edge.length or 0) + root_chain
     return out, all_present
 
 
